@@ -421,6 +421,44 @@ pub fn pair_twin(s: &mut Sink, count: u64, seed: u64) {
     }
 }
 
+/// combs: wide pages with many small child pages (every m-th key one level up), the two replicas identical
+/// except for a few values / missing keys: one inconsistent page with many consistent children
+pub fn pair_comb(s: &mut Sink, count: u64, seed: u64) {
+    let mut r = Rng::new(seed ^ 0x7e7e);
+    for _ in 0..count {
+        let mut cr = Rng::new(r.next());
+        if !s.mine() {
+            s.skip();
+            continue;
+        }
+        let n = 8 + cr.below(90) as usize;
+        let m = 2 + cr.below(3) as usize;
+        let top = cr.chance(1, 3);
+        let levels: Vec<u32> = (0..n)
+            .map(|i| if top && i % (m * 7) == 3 { 2 } else if i % m == 1 { 1 } else { 0 })
+            .collect();
+        let ks = keys_str(&levels, 16, 16);
+        let mut a: Vec<String> = (0..n).map(|i| format!("u{}:01", i)).collect();
+        let mut b = a.clone();
+        for _ in 0..(1 + cr.below(3)) {
+            let i = cr.below(n as u64) as usize;
+            match cr.below(3) {
+                0 => b[i] = format!("u{}:02", i),
+                1 => a[i] = format!("u{}:03", i),
+                _ => {
+                    if cr.chance(1, 2) {
+                        a[i] = String::new()
+                    } else {
+                        b[i] = String::new()
+                    }
+                }
+            }
+        }
+        let j = |v: Vec<String>| v.into_iter().filter(|x| !x.is_empty()).collect::<Vec<_>>().join(",");
+        s.emit(&format!("P 16 16 {} {} {}", ks, j(a), j(b)));
+    }
+}
+
 pub fn pair_rand(s: &mut Sink, count: u64, seed: u64, maxkeys: usize) {
     let mut r = Rng::new(seed ^ 0x5151);
     for i in 0..count {
@@ -633,16 +671,17 @@ pub fn list_rand(s: &mut Sink, count: u64, seed: u64) {
             s.skip();
             continue;
         }
-        let m = 2 + cr.below(40) as u32;
+        let big = cr.chance(1, 5);
+        let m = if big { 40 + cr.below(160) as u32 } else { 2 + cr.below(40) as u32 };
         let mut pool = vec![];
         let nested = cr.chance(3, 4);
-        let la = cr.below(25) as usize;
+        let la = if big { cr.below(90) as usize } else { cr.below(25) as usize };
         let a = rand_list(&mut cr, m, la, &mut pool, nested);
         let b = match cr.below(4) {
             0 => a.clone(),
             1 => mutate_list(&mut cr, &a, &mut pool),
             _ => {
-                let lb = cr.below(25) as usize;
+                let lb = if big { cr.below(90) as usize } else { cr.below(25) as usize };
                 rand_list(&mut cr, m, lb, &mut pool, nested)
             }
         };
@@ -710,6 +749,46 @@ pub fn sync_exh(s: &mut Sink, nrep: usize, nk: usize, len: usize, merge: &str) {
         }
     }
 }
+/// replicas whose trees have very wide pages (hundreds of keys on one level): bulk-load, sync, overwrite, sync
+pub fn sync_flat(s: &mut Sink, count: u64, seed: u64) {
+    let mut r = Rng::new(seed ^ 0x5d5d);
+    for _ in 0..count {
+        let mut cr = Rng::new(r.next());
+        if !s.mine() {
+            s.skip();
+            continue;
+        }
+        let n = 260 + cr.below(200) as usize;
+        let nrep = 2 + cr.below(2) as usize;
+        let levels: Vec<u32> = (0..n).map(|_| if cr.chance(1, 200) { 1 } else { 0 }).collect();
+        let ks = keys_str(&levels, 16, 16);
+        let mut ev: Vec<String> = vec![];
+        // replica 0 holds everything, the others a part
+        for k in 0..n {
+            ev.push(format!("w0:{}:1", k));
+            for q in 1..nrep {
+                if cr.chance(1, 3) {
+                    ev.push(format!("w{}:{}:1", q, k));
+                }
+            }
+        }
+        for q in 1..nrep {
+            ev.push(format!("p{}:0", q));
+            ev.push(format!("p0:{}", q));
+        }
+        // overwrites of keys that already exist, then more pulls
+        for _ in 0..(2 + cr.below(6)) {
+            ev.push(format!("w{}:{}:{}", cr.below(nrep as u64), cr.below(n as u64), 2 + cr.below(3)));
+        }
+        for q in 1..nrep {
+            ev.push(format!("p{}:0", q));
+            ev.push(format!("p0:{}", q));
+            ev.push(format!("p{}:0", q));
+        }
+        s.emit(&format!("Yf 16 max {} {} {}", nrep, ks, ev.join(",")));
+    }
+}
+
 pub fn sync_rand(s: &mut Sink, count: u64, seed: u64, maxkeys: usize) {
     let mut r = Rng::new(seed ^ 0x9191);
     for i in 0..count {
